@@ -15,4 +15,12 @@ theorem fn_checkKeepalive_reach (cfg : Cfg) (proto : Nat) (ops : List Op) :
   have h := c08_time_inv cfg proto ops
   exact fn_checkKeepalive s h.1 h.2.1
 
+/-- in every reachable state the translated `loop_misc()` - result code and effect on the client - is the model's `loopMisc`,
+the function the theorems c08_ping_due / c08_timeout / c08_live / c08_gap_bound are stated about -/
+theorem fn_loopMisc_reach (cfg : Cfg) (proto : Nat) (ops : List Op) :
+    let s := runFrom cfg proto ops
+    ∃ rc effs, lmRun s = .ok (rc, effs) ∧ (runEffs s effs, rc) = s.loopMisc := by
+  intro s
+  exact fn_loopMisc s (c08_time_inv cfg proto ops)
+
 end Paho.FnEq
